@@ -9,6 +9,7 @@ import (
 	"io"
 	"net"
 	"net/http"
+	"net/url"
 	"strings"
 	"sync"
 
@@ -48,6 +49,10 @@ type ClientHSCase struct {
 	// Chunks: how the transport splits the second reply into reads; RBuf: ReadBufferSize.
 	Chunks []int `json:"chunks,omitempty"`
 	RBuf   int   `json:"rbuf,omitempty"`
+	// ViaNewClient: both handshakes go through the deprecated NewClient
+	// function over a connection the caller supplies (ws scheme, no
+	// subprotocols, no compression only).
+	ViaNewClient bool `json:"via_newclient,omitempty"`
 }
 
 var c14Keys sync.Map // every challenge key seen in this process
@@ -135,6 +140,7 @@ func genClientHSCase(t *rapid.T) ClientHSCase {
 	r.LowerNames = rapid.IntRange(0, 3).Draw(t, "lowernames") == 0
 	c.Chunks = genChunks(t, "chunks", 600)
 	c.RBuf = rapid.SampledFrom([]int{0, 0, 128, 256, 1024}).Draw(t, "rbuf")
+	c.ViaNewClient = rapid.IntRange(0, 2).Draw(t, "via_newclient") == 0
 	return c
 }
 
@@ -250,8 +256,16 @@ func checkC14(c ClientHSCase, o *Obs) error {
 			}
 		}
 	}
+	dial := func() (*websocket.Conn, *http.Response, error) { return d.Dial(c.url(), hdr) }
+	if pu, perr := url.Parse(c.url()); c.ViaNewClient && perr == nil && !badURL && owned == "" && scheme == "ws" && len(c.Subs) == 0 && !c.Compress {
+		o.Class("via_NewClient")
+		dial = func() (*websocket.Conn, *http.Response, error) {
+			nc, _ := hook(context.Background(), "tcp", pu.Host)
+			return websocket.NewClient(nc, pu, hdr, c.RBuf, 0)
+		}
+	}
 	// --- first dial: plain valid reply (also provides the stale Accept value)
-	conn1, _, err1 := d.Dial(c.url(), hdr)
+	conn1, _, err1 := dial()
 	if badURL || owned != "" {
 		if err1 == nil || conn1 != nil {
 			return fmt.Errorf("Dial(%q) with caller header %q succeeded; it must be refused", c.url(), owned)
@@ -277,7 +291,7 @@ func checkC14(c ClientHSCase, o *Obs) error {
 		return err
 	}
 	// --- second dial on the same Dialer: the scripted reply
-	conn2, resp2, err2 := d.Dial(c.url(), hdr)
+	conn2, resp2, err2 := dial()
 	if dials != 2 {
 		return fmt.Errorf("second dial made %d network dials", dials-1)
 	}
